@@ -205,22 +205,26 @@ def injector_at(root, p, msg):
     if f not in _LINES:
         spans = []
         try:
+            cur = None
             for n, line in enumerate(open(f).read().split("\n"), 1):
                 mm = re.match(r"func Init(\d+b?)\(", line)
                 if mm:
-                    spans.append((n, mm.group(1)))
+                    cur = [n, mm.group(1), n + 4]
+                    spans.append(cur)
+                elif cur is not None and line == "}":
+                    cur[2] = n            # the template ends here: what follows (set variables, helpers) is not the injector's
+                    cur = None
         except OSError:
             pass
         _LINES[f] = spans
     line = int(m.group(1))
     best = None
-    for start, key in _LINES[f]:
-        if start <= line:
+    for start, key, end in _LINES[f]:
+        if start <= line <= end:
             best = (start, key)
     if best is None:
         return None
-    # the template is at most a handful of lines long (doc comment excluded)
-    return best[1] if line - best[0] <= 4 else None
+    return best[1]
 
 
 def has_twin(p, u):
